@@ -152,10 +152,10 @@ def generate(src):
     ex.run(fdef, st, on_ret, on_exc)
     src.note_paths('::exception_to_python', sum(exits.values()))
     # ---------------- create_exception_cls / subclass_exception: the result is a new class derived from an Exception subclass
-    made = []
+    made = []; class_name = Function('class___name__', Val, Val)
     def h_type3(ex_, st_, e, recv, args, kw, k, K):
         if len(args) != 3 or not isinstance(args[1], PyTuple) or len(args[1].items) != 1: raise Unsupported("type(...) call shape in subclass_exception")
-        c = fresh('new_class'); parent = to_val(args[1].items[0]); st_.pc += [is_type(c), Implies(is_exc_cls(parent), is_exc_cls(c))]; made.append((c, parent)); return k(st_, c)
+        c = fresh('new_class'); parent = to_val(args[1].items[0]); st_.pc += [is_type(c), Implies(is_exc_cls(parent), is_exc_cls(c)), class_name(c) == to_val(args[0])]; made.append((c, parent)); return k(st_, c)
     EXC = fresh('Exception_class')
     class ExC(Exec):
         def ev_Name(self, e, st_, k, K):
@@ -168,6 +168,7 @@ def generate(src):
     stc.pc += [is_exc_cls(EXC), is_type(EXC), Or(parent_in == Val.none, And(is_type(parent_in), is_exc_cls(parent_in)))]
     def c_ret(s, v):
         oblige(s, "create_exception_cls/post: returns a class that is a BaseException subclass (derived from Exception or the given exception parent)  [C20]", And(is_type(to_val(v)), is_exc_cls(to_val(v))))
+        oblige(s, "create_exception_cls/post: the synthetic class carries exactly the requested name (the stored type name, dotted or not)  [C20]", class_name(to_val(v)) == to_val(stc.env['name']))
         reach(s, "create_exception_cls/reach@return")
     exc_.run(CEC, stc, c_ret, lambda s, x: oblige(s, "create_exception_cls/raises: nothing  [C20]", BoolVal(False)))
     # ---------------- restore(): the dynamic call create_exception_cls(...)(*args) has an exception class as its callee
